@@ -177,6 +177,56 @@ pub fn main(args: &[String]) {
                 }
             }
             match &handle {
+                // every other reconfiguration lands inside a log call of this thread (between the call's entry and its
+                // deliveries, at whichever load of the shared state comes first): that record is gated and delivered by
+                // one configuration - the old one or the new one -, never gated by one and delivered by the other
+                Some(h) if i % 2 == 1 => {
+                    let prev = steps[i - 1];
+                    let mut probe = (0usize, 1i64);
+                    'find: for ti in 0..targets.len() {
+                        for l in 1..=5i64 {
+                            let (to, ao) = expect(prev, ti);
+                            let (tn, an) = expect(c, ti);
+                            let wo = if to >= l { ao } else { [0, 0] };
+                            let wn = if tn >= l { an } else { [0, 0] };
+                            if wo != wn && (wo == [0, 0] || wn == [0, 0]) {
+                                probe = (ti, l);
+                                break 'find;
+                            }
+                        }
+                    }
+                    for k in &counters {
+                        k.n.store(0, Ordering::SeqCst);
+                    }
+                    let slot = Arc::new(std::sync::Mutex::new(Some(build_cfg(c, &counters))));
+                    let (s2, h2) = (slot.clone(), h.clone());
+                    log4rs::verif::set_thread_callback(Some(Arc::new(move |name: &str, _arg: u64| -> std::io::Result<()> {
+                        if name == "log.loaded" || name == "enabled.loaded" {
+                            if let Some(cfg) = s2.lock().unwrap().take() {
+                                h2.set_config(cfg);
+                            }
+                        }
+                        Ok(())
+                    })));
+                    let t = &targets[probe.0];
+                    log::logger().log(&log::Record::builder().target(t).level(level(probe.1)).args(format_args!("m")).build());
+                    log4rs::verif::set_thread_callback(None);
+                    if let Some(cfg) = slot.lock().unwrap().take() {
+                        h.set_config(cfg); // (the call never loaded the shared state)
+                    }
+                    let got: Vec<usize> = counters.iter().map(|k| k.n.load(Ordering::SeqCst)).collect();
+                    let (to, ao) = expect(prev, probe.0);
+                    let (tn, an) = expect(c, probe.0);
+                    let wo = if to >= probe.1 { ao.to_vec() } else { vec![0, 0] };
+                    let wn = if tn >= probe.1 { an.to_vec() } else { vec![0, 0] };
+                    if got != wo && got != wn {
+                        out.push(json!({"step": i, "init": args[2], "config": {"root": c["root"], "loggers": c["loggers"]},
+                                        "previous": {"root": prev["root"], "loggers": prev["loggers"]},
+                                        "mismatch": {"what": "a record in flight during a reconfiguration is delivered as neither configuration says", "target": t,
+                                                     "level": probe.1, "old_configuration_says": wo, "new_configuration_says": wn, "actual": got}}));
+                        break;
+                    }
+                }
                 Some(h) => h.set_config(build_cfg(c, &counters)),
                 None => break, // init_raw_config returns no handle
             }
